@@ -388,6 +388,7 @@ impl<'a, 'b> TagBlock<'a, 'b> {
 
             // Tags are potentially `{% endtag %}`
             if element.as_rule() == Rule::Tag {
+                let tag_str = element.as_str();
                 let mut tag = element
                     .into_inner()
                     .next()
@@ -408,6 +409,16 @@ impl<'a, 'b> TagBlock<'a, 'b> {
                             let output = match end_pos {
                                 Some(end_pos) => start_pos.span(&end_pos).as_str(),
                                 None => "",
+                            };
+                            // `{%- endtag %}` removes the whitespace before it. Usually the tag's
+                            // own span has already taken it, but not when the content ends in
+                            // something that merely looks like markup (`{{ x -}}   `), which
+                            // the lax grammar lets swallow that whitespace.
+                            const WS: [char; 4] = [' ', '\t', '\n', '\r'];
+                            let output = if tag_str.trim_start_matches(WS).starts_with("{%-") {
+                                output.trim_end_matches(WS)
+                            } else {
+                                output
                             };
 
                             return Ok(output);
